@@ -161,8 +161,10 @@ func (r *rateLimiter) UpdateRateLimitConditionStatus(upstream string, condition 
 		return nil, err
 	}
 
+	unknownInstance := false
 	oldCondition, err := limitStore.Get(condition.Spec.UpstreamCluster, condition.Name)
 	if errors.IsNotFound(err) {
+		unknownInstance = true
 		oldCondition = &proxyv1alpha1.RateLimitCondition{
 			TypeMeta:   upstreamCondition.TypeMeta,
 			ObjectMeta: metav1.ObjectMeta{Name: condition.Name},
@@ -205,6 +207,12 @@ func (r *rateLimiter) UpdateRateLimitConditionStatus(upstream string, condition 
 			return nil, fmt.Errorf("upstream flow control item type %s not equal to instance item type %s", upstreamItemType, itemType)
 		}
 
+		if unknownInstance {
+			// the quota reported by an instance this server has no record of (it was forgotten, or the
+			// shard moved here) is in use but not part of the recorded sum yet
+			upstreamUsed = addUnrecordedQuota(upstreamUsed, flowControlConfig.LimitItemDetail)
+		}
+
 		newConfig := calculateNextQuota(upstreamTotal, upstreamUsed, flowControlConfig, flowControlStatus, len(clients), condition)
 		//klog.V(4).Infof("[condition] name=%q next quota of condition: %+v", condition.Name, newConfig)
 
@@ -234,6 +242,24 @@ func (r *rateLimiter) UpdateRateLimitConditionStatus(upstream string, condition 
 	}
 
 	return condition, nil
+}
+
+func addUnrecordedQuota(used proxyv1alpha1.RateLimitItemStatus, reported proxyv1alpha1.LimitItemDetail) proxyv1alpha1.RateLimitItemStatus {
+	used = *used.DeepCopy()
+	switch {
+	case reported.MaxRequestsInflight != nil:
+		if used.MaxRequestsInflight == nil {
+			used.MaxRequestsInflight = &proxyv1alpha1.MaxRequestsInflightFlowControlSchema{}
+		}
+		used.MaxRequestsInflight.Max += reported.MaxRequestsInflight.Max
+	case reported.TokenBucket != nil:
+		if used.TokenBucket == nil {
+			used.TokenBucket = &proxyv1alpha1.TokenBucketFlowControlSchema{}
+		}
+		used.TokenBucket.QPS += reported.TokenBucket.QPS
+		used.TokenBucket.Burst += reported.TokenBucket.Burst
+	}
+	return used
 }
 
 func (r *rateLimiter) DoAcquire(upstream string, acquireRequest *proxyv1alpha1.RateLimitAcquire) (*proxyv1alpha1.RateLimitAcquire, error) {
